@@ -27,7 +27,7 @@ sys.dont_write_bytecode = True
 
 import asynciojobs                                      # noqa: E402
 from asynciojobs import (AbstractJob, Job, Scheduler,   # noqa: E402
-                         PureScheduler)
+                         PureScheduler, PrintJob, Watch)
 import asynciojobs.purescheduler as _ps                 # noqa: E402
 
 assert os.path.realpath(asynciojobs.__file__).startswith(
@@ -171,6 +171,41 @@ class VCoroJob(Job):
         return self.vhash
 
 
+class VPrintJob(PrintJob):
+    """the library's PrintJob (returns None after an optional sleep); only
+    for jobs that return, with an integer duration"""
+
+    def __init__(self, spec):
+        self.vname = spec['name']
+        self.vspec = spec
+        self.vhash = spec['hash']
+        dur = spec['dur']
+        PrintJob.__init__(self, 'message', spec['name'],
+                          sleep=dur if dur else None, banner='--',
+                          label=spec['name'])
+        self.critical = spec.get('critical', False)
+        self.forever = spec.get('forever', False)
+
+    def __hash__(self):
+        return self.vhash
+
+    async def co_run(self):
+        log('start', self.vname)
+        try:
+            res = await PrintJob.co_run(self)
+        except asyncio.CancelledError:
+            log('cancel', self.vname)
+            log('cancel_done', self.vname)
+            raise
+        log('end', self.vname, res)
+        return res
+
+    async def co_shutdown(self):
+        log('sd_begin', self.vname)
+        await PrintJob.co_shutdown(self)
+        log('sd_end', self.vname)
+
+
 def _wrap_sched(base):
     class V(base):
         def __init__(self, spec, jobs):
@@ -181,6 +216,8 @@ def _wrap_sched(base):
                       timeout=spec.get('timeout'),
                       shutdown_timeout=spec.get('sdt', 1),
                       verbose=spec.get('verbose', False))
+            if spec.get('watch'):
+                kw['watch'] = Watch(show_elapsed=False)
             if base is Scheduler:
                 kw.update(forever=spec.get('forever', False),
                           critical=spec.get('critical', False),
@@ -276,6 +313,12 @@ class Built:
             obj = VJob(spec)
         elif k == 'coro':
             obj = VCoroJob(spec)
+        elif k == 'print':
+            if spec['dur'] == 'never' or spec.get('out', 'ret') != 'ret' \
+                    or spec.get('cdelay') or spec.get('sd'):
+                obj = VJob(spec)      # PrintJob cannot behave like that
+            else:
+                obj = VPrintJob(spec)
         else:
             raise ValueError(k)
         self.obj[name] = obj
